@@ -212,7 +212,7 @@ def strides_from_source(obj, hook):
     return out
 
 
-def _arith_tree(t, helpers, seen):
+def _arith_tree(t, helpers, seen, owner=None):
     for node in ast.walk(t):
         if isinstance(node, ast.Pow):
             return False
@@ -229,10 +229,24 @@ def _arith_tree(t, helpers, seen):
                                 inspect.getsource(helpers[f.id])))
                         except Exception:
                             return False
-                        if not _arith_tree(ht, helpers, seen):
+                        if not _arith_tree(ht, helpers, seen, owner):
                             return False
                     continue
                 return False
+            if isinstance(f, ast.Attribute) and isinstance(f.value, ast.Name) \
+                    and f.value.id == 'self' and owner is not None and \
+                    inspect.isfunction(getattr(owner, f.attr, None)):
+                key = 'self.' + f.attr          # another method of the class
+                if key not in seen:
+                    seen.add(key)
+                    try:
+                        mt = ast.parse(textwrap.dedent(
+                            inspect.getsource(getattr(owner, f.attr))))
+                    except Exception:
+                        return False
+                    if not _arith_tree(mt, helpers, seen, owner):
+                        return False
+                continue
             if isinstance(f, ast.Attribute) and isinstance(f.value, ast.Name) \
                     and f.value.id == 'SPH_KERNEL':
                 continue            # judged with the kernel class
@@ -254,7 +268,7 @@ def is_arith(obj, hooks=HOOKS):
     for h in hooks:
         if hasattr(obj, h):
             t = _tree(obj, h)
-            if t is None or not _arith_tree(t, helpers, set()):
+            if t is None or not _arith_tree(t, helpers, set(), type(obj)):
                 return False
     return True
 
@@ -317,24 +331,46 @@ def snapshot(pas):
     return out
 
 
-def compare(before, ref, imp):
-    """Per property name (both arrays together) the measured disagreement."""
+def _same(a, b):
+    """Entry-wise: the same double (NaN equals NaN, -0.0 equals 0.0)."""
+    return (a == b) | (np.isnan(a) & np.isnan(b))
+
+
+def compare(before, ref, imp, ref2=None):
+    """Per property name (both arrays together) the measured disagreement
+    between the reference (ref) and the compiled (imp) final states.
+    ref2: the reference run repeated with every declared matrix filled with
+    NaN instead of zeros; entries on which ref and ref2 differ are UNDEFINED
+    (they depend on a declared matrix no statement wrote) and are counted
+    separately: undef entries, ubit of them differing from the compiled
+    value."""
     by = {}
     for (a, nm), r in ref.items():
         c = imp[(a, nm)]
         b = before[(a, nm)]
         e = by.setdefault(nm, dict(n=nm, cnt=0, nbit=0, nan=0, err15=0,
-                                   changed=0))
+                                   changed=0, undef=0, ubit=0))
+        if c.shape != r.shape:
+            # the two executions left arrays of different length: every
+            # entry counts as a disagreement
+            e['cnt'] += int(max(r.size, c.size))
+            e['nbit'] += int(max(r.size, c.size))
+            e['nan'] += int(max(r.size, c.size))
+            e['changed'] += 1
+            continue
+        if b.shape != r.shape:
+            b = np.full(r.shape, np.nan)
         e['cnt'] += int(r.size)
-        rb = r.view(np.int64) if r.dtype == np.float64 else r
-        cb = c.view(np.int64) if c.dtype == np.float64 else c
-        both_nan = np.isnan(r) & np.isnan(c)
-        e['nbit'] += int(np.sum((rb != cb) & ~both_nan & ~((r == 0) & (c == 0))))
+        defined = np.ones(r.shape, dtype=bool)
+        if ref2 is not None and ref2[(a, nm)].shape == r.shape:
+            defined = _same(r, ref2[(a, nm)])
+        e['undef'] += int(np.sum(~defined))
+        e['ubit'] += int(np.sum(~defined & ~_same(r, c)))
+        e['nbit'] += int(np.sum(defined & ~_same(r, c)))
         fin_r, fin_c = np.isfinite(r), np.isfinite(c)
-        same_special = (~fin_r & ~fin_c) & (both_nan | (r == c))
-        e['nan'] += int(np.sum((fin_r != fin_c) | (~fin_r & ~fin_c &
-                                                    ~same_special)))
-        ok = fin_r & fin_c
+        e['nan'] += int(np.sum(defined & ~_same(r, c) &
+                               (~fin_r | ~fin_c)))
+        ok = fin_r & fin_c & defined
         if np.any(ok):
             scale = float(np.max(np.abs(r[ok])))
             den = np.maximum(np.maximum(np.abs(r[ok]), np.abs(c[ok])),
@@ -486,6 +522,63 @@ def run_classes(job):
             h = len(us) // 2
             return build_or_split(us[:h], dim) + build_or_split(us[h:], dim)
 
+    def one_run(u, i, dim, seed, base, props, k, ae, pas_c, sel):
+        # reference executor first: only what Python can run is run compiled
+        pas_r = make_arrays(props, dim, seed)
+        before = snapshot(pas_r)
+        obj = instantiate(u.cls, dim)
+        try:
+            nn = LinkedListNNPS(dim=dim, particles=pas_r,
+                                radius_scale=k.radius_scale)
+            rx = RefExec(pas_r, [Group(equations=[obj], name='c')],
+                         kernel_cls(dim=dim), nn)
+            rx.compute(0.25, 0.125)
+        except Exception as ex:
+            return dict(base, pyerror='%s: %s' % (type(ex).__name__,
+                                                  str(ex)[:160]))
+        ref = snapshot(pas_r)
+        # once more with NaN in every declared matrix: what differs depends
+        # on a local the generated C leaves uninitialised
+        ref2 = None
+        try:
+            pas_q = make_arrays(props, dim, seed)
+            rq = RefExec(pas_q, [Group(equations=[instantiate(u.cls, dim)],
+                                       name='c')], kernel_cls(dim=dim),
+                         LinkedListNNPS(dim=dim, particles=pas_q,
+                                        radius_scale=k.radius_scale),
+                         matrix_fill=float('nan'))
+            rq.compute(0.25, 0.125)
+            ref2 = snapshot(pas_q)
+        except Exception:
+            ref2 = None
+        # the same data in the arrays of the compiled evaluator
+        fresh = make_arrays(props, dim, seed)
+        for pc, pf in zip(pas_c, fresh):
+            if pc.get_number_of_particles() != pf.get_number_of_particles():
+                pc.resize(pf.get_number_of_particles())
+            for nm in list(pf.properties) + list(pf.constants):
+                pc.get_carray(nm).get_npy_array()[:] = \
+                    pf.get_carray(nm).get_npy_array()
+            pc.align_particles()
+        nn2 = LinkedListNNPS(dim=dim, particles=pas_c,
+                             radius_scale=k.radius_scale)
+        ae.set_nnps(nn2)
+        sel[0] = i
+        try:
+            ae.compute(0.25, 0.125)
+        finally:
+            sel[0] = -1
+        imp = snapshot(pas_c)
+        kern_obj = kernel_cls(dim=dim)
+        arith = is_arith(obj) and (
+            not uses_kernel(obj) or
+            is_arith(kern_obj, ('kernel', 'gradient', 'dwdq', 'gradient_h',
+                                'get_deltap')))
+        nloop = sum(1 for e in rx.log if e[0] == 'loop')
+        return dict(base, arith=bool(arith), hooks=hooks_of(u.cls),
+                    uses_kernel=uses_kernel(obj), nloop=nloop,
+                    nev=len(rx.log), props=compare(before, ref, imp, ref2))
+
     for dim in job['dims']:
         live = [u for u in units if not u.why]
         for ae, pas_c, sel, props, k, us in build_or_split(live, dim):
@@ -499,50 +592,12 @@ def run_classes(job):
                     base = dict(id=rid, kind='class', jid=job['jid'],
                                 cls='%s.%s' % u.key, kernel=job['kernel'],
                                 dim=dim)
-                    # reference executor first: only what Python can run is
-                    # run compiled
-                    pas_r = make_arrays(props, dim, seed)
-                    before = snapshot(pas_r)
-                    obj = instantiate(u.cls, dim)
                     try:
-                        nn = LinkedListNNPS(dim=dim, particles=pas_r,
-                                            radius_scale=k.radius_scale)
-                        rx = RefExec(pas_r, [Group(equations=[obj],
-                                                   name='c')],
-                                     kernel_cls(dim=dim), nn)
-                        rx.compute(0.25, 0.125)
+                        recs.append(one_run(u, i, dim, seed, base, props, k,
+                                            ae, pas_c, sel))
                     except Exception as ex:
-                        recs.append(dict(base, pyerror='%s: %s' % (
-                            type(ex).__name__, str(ex)[:160])))
-                        continue
-                    ref = snapshot(pas_r)
-                    # the same data in the arrays of the compiled evaluator
-                    fresh = make_arrays(props, dim, seed)
-                    for pc, pf in zip(pas_c, fresh):
-                        if pc.get_number_of_particles() != \
-                                pf.get_number_of_particles():
-                            pc.resize(pf.get_number_of_particles())
-                        for nm in list(pf.properties) + list(pf.constants):
-                            pc.get_carray(nm).get_npy_array()[:] = \
-                                pf.get_carray(nm).get_npy_array()
-                        pc.align_particles()
-                    nn2 = LinkedListNNPS(dim=dim, particles=pas_c,
-                                         radius_scale=k.radius_scale)
-                    ae.set_nnps(nn2)
-                    sel[0] = i
-                    ae.compute(0.25, 0.125)
-                    sel[0] = -1
-                    imp = snapshot(pas_c)
-                    kern_obj = kernel_cls(dim=dim)
-                    arith = is_arith(obj) and (
-                        not uses_kernel(obj) or
-                        is_arith(kern_obj, ('kernel', 'gradient', 'dwdq',
-                                            'gradient_h', 'get_deltap')))
-                    nloop = sum(1 for e in rx.log if e[0] == 'loop')
-                    recs.append(dict(
-                        base, arith=bool(arith), hooks=hooks_of(u.cls),
-                        uses_kernel=uses_kernel(obj), nloop=nloop,
-                        nev=len(rx.log), props=compare(before, ref, imp)))
+                        recs.append(dict(base, error='%s: %s' % (
+                            type(ex).__name__, str(ex)[:200])))
         for u in units:
             if u.why and not getattr(u, 'reported', False):
                 u.reported = True
